@@ -75,8 +75,21 @@ func genC11(t *rapid.T) *Case {
 			spec.Ops = append(spec.Ops, nr(Op{Kind: k, B: b}), nr(Op{Kind: k, B: !b}))
 		}
 	}
-	if rapid.IntRange(0, 5).Draw(t, "ugc") == 0 {
+	switch rapid.IntRange(0, 7).Draw(t, "c11base") {
+	case 0:
 		spec.Base = "UGC"
+	case 1, 2:
+		// a Policy{} literal with the options requested BEFORE the first rule
+		spec.Base = "Zero"
+		var opts, rules []Op
+		for _, o := range spec.Ops {
+			if o.Kind == "AllowAttrs" || o.Kind == "AllowURLSchemes" {
+				rules = append(rules, o)
+			} else {
+				opts = append(opts, o)
+			}
+		}
+		spec.Ops = append(opts, rules...)
 	}
 	return &Case{Spec: spec, Input: BStr(genLinkElements(t))}
 }
